@@ -191,7 +191,7 @@ SCENARIO("Pointset_Powerset<C_Polyhedron>.maximize_relation") { int n = rdim(); 
 
 // ---------------------------------------------------------------- rejected calls (Pointset_Powerset_defs.hh)
 #define REJP2(op, cls, expected, prep, stmt) REJECT("Pointset_Powerset<C_Polyhedron>", op, cls) { Variable x(0), y(1), z(2); (void) x; (void) y; (void) z; \
-    PS ps = rps(2), qs = rps(3); prep; PS ps0(ps), qs0(qs); r.call(expected, [&] { stmt; }); \
+    PS ps = rps(2, rnd(1, 3)), qs = rps(3, rnd(1, 3)); prep; PS ps0(ps), qs0(qs); r.call(expected, [&] { stmt; }); \
     r.unchanged("receiver", ps, ps0, EQ, [](const PS& a) { return val(a); }); r.unchanged("argument", qs, qs0, EQ, [](const PS& a) { return val(a); }); }
 #define REJP(op, cls, expected, stmt) REJP2(op, cls, expected, (void) 0, stmt)
 REJP("add_disjunct", "dim_mismatch", "invalid_argument", C_Polyhedron p(3); ps.add_disjunct(p))
@@ -224,6 +224,10 @@ REJP("concatenate_assign", "space_dimension_overflow", "length_error", PS big(PS
 REJP("relation_with_constraint", "dim_too_large", "invalid_argument", (void) ps.relation_with(z >= 0))
 REJP("maximize", "dim_too_large", "invalid_argument", Coefficient a; Coefficient b; bool m; (void) ps.maximize(z, a, b, m))
 REJP("BHZ03_widening_assign", "dim_mismatch", "invalid_argument", ps.BHZ03_widening_assign<BHRZ03_Certificate>(qs, widen_fun_ref(&Polyhedron::H79_widening_assign)))
+// the same on a powerset without disjuncts (bottom): the documentation makes no exception for it
+REJECT("Pointset_Powerset<C_Polyhedron>", "add_constraint", "dim_too_large_no_disjuncts") { PS ps(2, EMPTY); PS ps0(ps); r.call("invalid_argument", [&] { ps.add_constraint(Variable(2) >= 0); }); r.unchanged("receiver", ps, ps0, EQ, [](const PS& a) { return val(a); }); }
+REJECT("Pointset_Powerset<C_Polyhedron>", "intersection_assign", "dim_mismatch_no_disjuncts") { PS ps(2, EMPTY), qs(3, EMPTY); r.call("invalid_argument", [&] { ps.intersection_assign(qs); }); }
+REJECT("Pointset_Powerset<C_Polyhedron>", "affine_image", "zero_denominator_no_disjuncts") { PS ps(2, EMPTY); r.call("invalid_argument", [&] { ps.affine_image(Variable(0), Variable(1), 0); }); }
 REJECT("Pointset_Powerset<C_Polyhedron>", "construct", "space_dimension_overflow") { r.call("length_error", [&] { PS ps(PS::max_space_dimension() + 1, EMPTY); }); }
 REJECT("Pointset_Powerset<C_Polyhedron>", "linear_partition", "dim_mismatch") { C_Polyhedron p(2), q(3); r.call("invalid_argument", [&] { (void) linear_partition(p, q); }); }
 } // namespace
